@@ -208,11 +208,11 @@ func TestVerif_C15_GroupLaw(t *testing.T) {
 	})
 }
 
-func TestVerif_C15_Decode(t *testing.T) {
+// verifProp_C15_Decode builds the property (shared by the rapid test and the native fuzz target).
+func verifProp_C15_Decode() func(*rapid.T) {
 	rec := stats.Get("C15", "decode")
 	rec.Rule("rapid: byte strings as encodings: valid 65-byte encodings; every kind of single-bit flip of prefix/x/y; lengths 0..70; prefixes 0x00..0x07 with 1, 33 and 65 bytes; x+p (tiny x) and y>=p; (x,p-y); uniform. Oracle: SetBytes accepts iff the reference decoder does (0x00 alone, or 0x04||canonical on-curve x||y) and then re-encodes to the same bytes; on rejection the receiver is unchanged; input unmodified; no panic. Non-trivial: every rejected encoding and every accepted one other than a plain valid point; distinct by bytes.")
-	t.Cleanup(stats.FlushAll)
-	rapid.Check(t, func(t *rapid.T) {
+	return func(t *rapid.T) {
 		r := gen.Rand(t, "seed")
 		a, _ := c15Scalar(t, "a")
 		if a.Sign() == 0 {
@@ -303,5 +303,15 @@ func TestVerif_C15_Decode(t *testing.T) {
 		if !bytes.Equal(got.Bytes(), sm2ref.Encode(want)) || !bytes.Equal(got.Bytes(), b) {
 			vt.Fail(t, rec, "C15:decode:roundtrip", "decoded point re-encodes differently\n in %x\nout %x", b, got.Bytes())
 		}
-	})
+	}
+}
+
+func TestVerif_C15_Decode(t *testing.T) {
+	t.Cleanup(stats.FlushAll)
+	rapid.Check(t, verifProp_C15_Decode())
+}
+
+// FuzzVerif_C15_Decode drives the same property with Go's coverage-guided fuzzer (thorough tier).
+func FuzzVerif_C15_Decode(f *testing.F) {
+	f.Fuzz(rapid.MakeFuzz(verifProp_C15_Decode()))
 }
